@@ -251,6 +251,10 @@ var c11Embeddings = []c11Embedding{
 	{"ternary-in-format", 1, func(e []string) string { return "format('{0}', " + e[0] + " && 'a' || 'b')" }, []bool{true}},
 	{"format-arg", 1, func(e []string) string { return "format('{0} {1}', 'a', " + e[0] + ")" }, []bool{true}},
 	{"toJSON", 1, func(e []string) string { return "toJSON(" + e[0] + ")" }, []bool{true}},
+	// calls the checker cannot resolve: a function that does not exist, a call with too many arguments
+	{"undefined-function-arg", 1, func(e []string) string { return "nosuchfn('a', " + e[0] + ")" }, []bool{true}},
+	{"wrong-arity-arg", 1, func(e []string) string { return "toJSON('a', " + e[0] + ")" }, []bool{true}},
+	{"safe-in-undefined", 1, func(e []string) string { return "nosuchfn(contains(" + e[0] + ", 'x'))" }, []bool{false}},
 	{"fromJSON-nested", 1, func(e []string) string { return "fromJSON(toJSON(" + e[0] + ")).x" }, []bool{true}},
 	{"as-index", 1, func(e []string) string { return "env[" + e[0] + "]" }, []bool{true}},
 	{"as-index-of-event", 1, func(e []string) string { return "github.event.commits[" + e[0] + "]" }, []bool{true}},
@@ -270,7 +274,7 @@ var c11Embeddings = []c11Embedding{
 func TestVerifC11(t *testing.T) {
 	r := vNewReport("C11")
 	defer r.Write(t)
-	r.Extra["rule"] = "20 documented untrusted paths: full spelling product of every segment in the bare embedding; proper prefixes, trusted siblings per segment, one-segment extensions, object filter in place of each named segment; array filter followed by an index at every later place of the chain; object filter followed by an element-picking index and a second index for the array segment; every path continued on the result of a parenthesised || / && (4 templates x every split point); the tail of every path written on the result of a sanitising call next to its head (4 templates x every split point); canonical + adversarial spelling (thorough: every spelling) of every path in 23 embeddings (operators, parentheses, call arguments, index positions, 2 and 3 chains, sanitising calls nested both ways), pairs of different paths in the multi-chain embeddings; every path (3 spellings) next to 10 partner chains that leave the matcher in different states, both orders, 3 templates; script positions (run:, github-script script:; also scripts whose own text holds {{ }} before the placeholder) and non-script positions (env:, other with: input, if:, name:; 14 positions that hold exactly one expression - booleans, numbers, whole sections, runner labels - in plain, single- and double-quoted style) through Linter.Lint. oracle = stateless reference matcher on segment lists. class = (family, number of reports expected); non-trivial = something must be reported"
+	r.Extra["rule"] = "20 documented untrusted paths: full spelling product of every segment in the bare embedding; proper prefixes, trusted siblings per segment, one-segment extensions, object filter in place of each named segment; array filter followed by an index at every later place of the chain; object filter followed by an element-picking index and a second index for the array segment; every path continued on the result of a parenthesised || / && (4 templates x every split point); the tail of every path written on the result of a sanitising call next to its head (4 templates x every split point); canonical + adversarial spelling (thorough: every spelling) of every path in 26 embeddings (operators, calls of undefined functions and calls with too many arguments, parentheses, call arguments, index positions, 2 and 3 chains, sanitising calls nested both ways), pairs of different paths in the multi-chain embeddings; every path (3 spellings) next to 10 partner chains that leave the matcher in different states, both orders, 3 templates; script positions (run:, github-script script:; also scripts whose own text holds {{ }} before the placeholder) and non-script positions (env:, other with: input, if:, name:; 14 positions that hold exactly one expression - booleans, numbers, whole sections, runner labels - in plain, single- and double-quoted style) through Linter.Lint. oracle = stateless reference matcher on segment lists. class = (family, number of reports expected); non-trivial = something must be reported"
 	r.Extra["assumptions"] = []string{"a chain is a variable followed by accessors; chains interrupted by operators are not claimed (DESIGN section 7)", "a non-string index anywhere after an object filter (it selects an element of the filtered array) is not generated"}
 	if raw := vReplayInput(); raw != nil {
 		var rp struct {
